@@ -129,3 +129,123 @@ func Lib(repo, verif, scratch string) (*Overlay, error) {
 	}
 	return o, nil
 }
+
+// ---- clisim ----
+
+var osIntercepted = map[string]bool{
+	"Open": true, "OpenFile": true, "Create": true, "ReadFile": true, "WriteFile": true,
+	"Remove": true, "RemoveAll": true, "Rename": true, "Mkdir": true, "MkdirAll": true,
+	"Symlink": true, "Link": true, "Readlink": true, "Stat": true, "Lstat": true,
+	"Chmod": true, "Chown": true, "Lchown": true, "Chtimes": true, "Truncate": true, "ReadDir": true,
+	"File": true, "Stdin": true, "Stdout": true, "Stderr": true, "NewFile": true, "Exit": true,
+}
+
+// FS-touching (or process-level) names that the facade forwards without interception: a
+// tree that uses them outside --watch reaches the disk behind the simulator's back.
+var osUnsupported = map[string]bool{
+	"DirFS": true, "CopyFS": true, "CreateTemp": true, "MkdirTemp": true, "OpenRoot": true, "OpenInRoot": true,
+	"Chdir": true, "StartProcess": true, "Pipe": true, "Root": true,
+}
+
+var filepathFS = map[string]bool{"Walk": true, "WalkDir": true, "Glob": true, "EvalSymlinks": true}
+
+// scanBypass reports uses in file that reach the file system around the os facade.
+func scanBypass(file string) ([]string, error) {
+	fset := token.NewFileSet()
+	f, err := parser.ParseFile(fset, file, nil, 0)
+	if err != nil {
+		return nil, err
+	}
+	var bad []string
+	names := map[string]string{} // local name -> import path
+	for _, im := range f.Imports {
+		p, _ := strconv.Unquote(im.Path.Value)
+		n := filepath.Base(p)
+		if im.Name != nil {
+			n = im.Name.Name
+		}
+		names[n] = p
+		switch p {
+		case "io/ioutil", "os/exec", "syscall/js":
+			bad = append(bad, fmt.Sprintf("%s imports %q", filepath.Base(file), p))
+		}
+	}
+	ast.Inspect(f, func(n ast.Node) bool {
+		se, ok := n.(*ast.SelectorExpr)
+		if !ok {
+			return true
+		}
+		id, ok := se.X.(*ast.Ident)
+		if !ok || id.Obj != nil {
+			return true
+		}
+		switch names[id.Name] {
+		case "os":
+			if osUnsupported[se.Sel.Name] {
+				bad = append(bad, fmt.Sprintf("%s uses os.%s", filepath.Base(file), se.Sel.Name))
+			}
+		case "path/filepath":
+			if filepathFS[se.Sel.Name] {
+				bad = append(bad, fmt.Sprintf("%s uses filepath.%s", filepath.Base(file), se.Sel.Name))
+			}
+		}
+		return true
+	})
+	return bad, nil
+}
+
+// CLI generates the overlay for clisim: every non-test file of cmd/minify gets its "os"
+// import rerouted to the verifos facade (mapped to <repo>/verifos), the driver test is
+// injected into package main, and the package's own test files are blanked (they are not
+// part of the simulated binary and may not type-check against the facade). It fails closed
+// when the package reaches the file system around the facade (outside watch.go, which no
+// property covers).
+func CLI(repo, verif, scratch string) (*Overlay, error) {
+	o := &Overlay{Replace: map[string]string{}}
+	dir := filepath.Join(repo, "cmd", "minify")
+	files, err := goFiles(dir)
+	if err != nil {
+		return nil, err
+	}
+	rewritten := 0
+	for _, f := range files {
+		if filepath.Base(f) != "watch.go" {
+			bad, err := scanBypass(f)
+			if err != nil {
+				return nil, err
+			}
+			if len(bad) > 0 {
+				return nil, fmt.Errorf("cmd/minify reaches the file system around the os facade: %s", strings.Join(bad, "; "))
+			}
+		}
+		src, changed, err := rewriteImport(f, "os", "github.com/tdewolff/minify/v2/verifos", "os")
+		if err != nil {
+			return nil, err
+		}
+		if !changed {
+			continue
+		}
+		dst := filepath.Join(scratch, "cli_"+filepath.Base(f))
+		if err := os.WriteFile(dst, src, 0o644); err != nil {
+			return nil, err
+		}
+		o.Replace[f] = dst
+		rewritten++
+	}
+	if rewritten == 0 {
+		return nil, fmt.Errorf("no file of cmd/minify imports os: nothing to simulate")
+	}
+	tests, _ := filepath.Glob(filepath.Join(dir, "*_test.go"))
+	blank := filepath.Join(scratch, "blank_test.go")
+	if err := os.WriteFile(blank, []byte("package main\n"), 0o644); err != nil {
+		return nil, err
+	}
+	for _, t := range tests {
+		o.Replace[t] = blank
+	}
+	o.Replace[filepath.Join(dir, "verif_sim_test.go")] = filepath.Join(verif, "overlaysrc", "driver", "verif_sim_test.go")
+	if err := mapDir(o, filepath.Join(verif, "overlaysrc", "verifos"), filepath.Join(repo, "verifos")); err != nil {
+		return nil, err
+	}
+	return o, nil
+}
